@@ -255,6 +255,13 @@ def l3_registration(F, R, M, lay, roles):
                 if t[0] == 'load0' and t[1][2] and t[1][2][-1][0] == 'f':
                     return OFF
                 raise Unfoldable(fmt(t)[:80])
+            if kind == 'paddr':
+                notp = [x[2] for x in subterms(r) if x[0] == 'call' and F.bodies.get(x[2], {}).get('impl_adt') == M.dma_adt and not x[2].endswith('::paddr')]
+                if notp:
+                    R.check(False, 'L3', '%s:%s:value' % (b['name'], vn), fn_site(F, b['id']), 'device address = region physical base (+ offset)',
+                            'the device-address accessor %s (%s) takes its value from %s, a driver-side pointer, not from the region\'s physical address: '
+                            'the area registered with the device is not inside the DMA memory obtained from the platform' % (b['name'], vn, notp[0].rsplit('::', 1)[1]))
+                    continue
             try:
                 if kind == 'paddr':
                     got = Folder(leaf).ev(r)
